@@ -13,6 +13,8 @@ import (
 	"path/filepath"
 	"sort"
 	"strings"
+	"sync/atomic"
+	"time"
 )
 
 // Ctx carries the output files of one harness run: cases.txt (operations, also fed to the Lean
@@ -29,12 +31,42 @@ type Ctx struct {
 	fc    *os.File
 	fi    *os.File
 	count int
+	noted atomic.Value // the case line about to run (string), see Note
+	ticks int64
+}
+
+// Note remembers, in memory, the case that is about to run on the real code.  When no case has completed for stallLimit
+// the watchdog leaves the noted case in <out>/current.txt and ends the process: the engine then reports that case as the
+// concrete input on which the code under test did not return (it spins, or waits for something that never comes).
+func (c *Ctx) Note(caseLine string) {
+	c.noted.Store(caseLine)
+	atomic.AddInt64(&c.ticks, 1)
+}
+
+const stallLimit = 5 * time.Minute
+
+func (c *Ctx) watchdog() {
+	last, since := int64(-1), time.Now()
+	for {
+		time.Sleep(3 * time.Second)
+		t := atomic.LoadInt64(&c.ticks)
+		if t != last {
+			last, since = t, time.Now()
+			continue
+		}
+		if cur, _ := c.noted.Load().(string); cur != "" && time.Since(since) > stallLimit {
+			_ = os.WriteFile(filepath.Join(c.dir, "current.txt"), []byte(cur+"\n"), 0644)
+			fmt.Println("verif watchdog: the case in current.txt did not return within", stallLimit)
+			os.Exit(3)
+		}
+	}
 }
 
 func (c *Ctx) Emit(caseLine, implLine string) {
 	fmt.Fprintln(c.cases, caseLine)
 	fmt.Fprintln(c.impl, implLine)
 	c.count++
+	atomic.AddInt64(&c.ticks, 1) // a completed case is progress too
 }
 
 // Begin records the case that is about to run in <out>/current.txt: when running it kills the
@@ -110,6 +142,7 @@ func main() {
 	c := &Ctx{seed: *seed, n: *n, tier: *tier, dir: *out, fc: fc, fi: fi,
 		cases: bufio.NewWriterSize(fc, 1<<20), impl: bufio.NewWriterSize(fi, 1<<20),
 		stats: map[string]int{}, notes: map[string]interface{}{}}
+	go c.watchdog()
 	replayFile = *in
 	err = f(c)
 	c.Close()
